@@ -346,7 +346,49 @@ class Program:
                 local = a.asname or a.name
                 m.imports[local] = ('from', base, a.name)
 
+    def _synthesise_factory_properties(self):
+        """class body:  name = factory(<constants>)  where the module-level `factory(p, ...)` defines one inner function and
+        returns `property(<that function>)`: the class gets a property `name` whose body is the inner function's with the
+        factory's parameters bound to the constants (so nine look-alike properties can be generated by one factory)."""
+        import copy
+        for ci in list(self.classes.values()):
+            for st in ci.node.body:
+                if not (isinstance(st, ast.Assign) and len(st.targets) == 1 and isinstance(st.targets[0], ast.Name)
+                        and isinstance(st.value, ast.Call) and isinstance(st.value.func, ast.Name) and not st.value.keywords
+                        and all(isinstance(a, ast.Constant) for a in st.value.args)):
+                    continue
+                name = st.targets[0].id
+                fac = ci.module.functions.get(st.value.func.id)
+                if fac is None or name in ci.methods:
+                    continue
+                inner = [n for n in fac.node.body if isinstance(n, ast.FunctionDef)]
+                rets = [n for n in fac.node.body if isinstance(n, ast.Return)]
+                if len(inner) != 1 or len(rets) != 1 or not (
+                        isinstance(rets[0].value, ast.Call) and isinstance(rets[0].value.func, ast.Name)
+                        and rets[0].value.func.id == 'property' and len(rets[0].value.args) == 1
+                        and isinstance(rets[0].value.args[0], ast.Name) and rets[0].value.args[0].id == inner[0].name):
+                    continue
+                params = [a.arg for a in fac.node.args.args]
+                if len(params) != len(st.value.args):
+                    continue
+                fn = copy.deepcopy(inner[0])
+                fn.name = name
+                binds = [ast.Assign(targets=[ast.Name(id=p_, ctx=ast.Store())], value=copy.deepcopy(a_))
+                         for p_, a_ in zip(params, st.value.args)]
+                fn.body = binds + list(fn.body)
+                fn.decorator_list = [ast.Name(id='property', ctx=ast.Load())]
+                ast.copy_location(fn, st)
+                for b_ in binds:
+                    ast.copy_location(b_, st)
+                ast.fix_missing_locations(fn)
+                q = f'{ci.qual}.{name}'
+                fi = FuncInfo(ci.module, q, fn, cls=ci, parent=None)
+                self.functions[q] = fi
+                self.by_node[id(fn)] = fi
+                ci.methods[name] = fi
+
     def _link(self):
+        self._synthesise_factory_properties()
         for ci in self.classes.values():
             for be in ci.base_exprs:
                 r = self.resolve_dotted(ci.module, be)
